@@ -30,7 +30,8 @@ CONSTANTS
     \* @type: Set(Str);
     Callers,       \* caller threads
     \* @type: Str;
-    Mode,          \* "idle" | "lit" | "closed" : how T is used
+    Mode,          \* "idle" | "lit" | "closed" | "mixed" : how T is used ("mixed": loop_in_thread(T) is called while
+                   \*  callers already use the idle loop - the history class of known finding D7b)
     \* @type: Bool;
     ReCheck        \* TRUE: the locked re-check in _get_loop_lock (the code); FALSE: dropped (witness)
 
@@ -79,7 +80,7 @@ Init ==
     /\ myLock = [t \in Threads |-> 0]
     /\ holder = [i \in LockIds |-> None]
     /\ createLock = None
-    /\ lit = IF Mode = "lit" THEN "new" ELSE "off"
+    /\ lit = IF Mode \in {"lit", "mixed"} THEN "new" ELSE "off"
     /\ litpc = "idle"
     /\ stopReq = FALSE
     /\ evaluated = {}
